@@ -632,6 +632,69 @@ def analyze_round_classes(facts, fty):
     return ctx
 
 
+def analyze_window_classes(facts, fty):
+    """C11 (Bellerophon), sibling agreement: the bit position whose neighbourhood `error_is_accurate::<F>` examines (the width it passes to
+    `lower_n_halfway` / `lower_n_mask`) must be the width at which `rounding::round::<F, _>` then rounds the same extended float -- for
+    every biased exponent.  The exponent is partitioned into singleton classes over the whole subnormal range and its two neighbours on
+    the normal side, plus one class for all larger exponents; significand and error estimate stay abstract.  With exponent -64 the
+    estimate must not reach a width at all (the shift is 65: only the carry test decides) while `round` clamps to 64."""
+    from ..consts import ieee
+    P, w, bias, p, bits = ieee(facts, fty)
+    S = 64 - p - 1
+    inf = (1 << w) - 1
+    top = 1 << 64
+    ctx = Ctx(facts, "valid")
+    ctx.record = True
+    eas = find_insts(facts, "minimal_lexical::bellerophon::error_is_accurate", fty)
+    rounds = [m for m in find_insts(facts, "minimal_lexical::rounding::round", fty) if _reaches(facts, m, ("rounding::round_nearest_tie_even",))]
+    dummy = {"dpath": "minimal_lexical::bellerophon::error_is_accurate", "path": "error_is_accurate", "targs": [], "krate": "minimal_lexical"}
+    if not eas or not rounds:
+        ctx.oblige("post:window siblings present", False, dummy, {}, "%d instances of error_is_accurate::<%s>, %d nearest-even instances of round::<%s, _>" % (len(eas), fty, len(rounds), fty))
+        ctx.exits, ctx.wall = 0, 0.0
+        return ctx
+    ea = eas[0]
+    classes = [(e, e) for e in range(-64, -S + 3)] + [(-S + 3, inf + 64)]
+
+    def widths(inst, argi, e0, e1, errs):
+        def pre(st, fr):
+            ptr = st.env.get((fr, argi))
+            d = G.ptr.get(ptr)
+            if d and d[0] == "loc":
+                st.env[d[1] + (("f", 0),)] = new_int(1 << 63, top - 1)
+                st.env[d[1] + (("f", 1),)] = const_int(e0) if e0 == e1 else new_int(e0, e1)
+        G.reset()
+        ctx.arg_log = {"mask::lower_n_halfway": [], "mask::lower_n_mask": []}
+        ov = {1: (lambda st, key: new_int(0, errs))} if errs is not None else None
+        c2 = analyze_fn(facts, inst, "valid", ctx=ctx, pre=pre, overrides=ov)
+        log = ctx.arg_log
+        ctx.arg_log = None
+        out = {}
+        for k, calls in log.items():
+            out[k] = sorted(set(a[0] for _f, a in calls if a))
+        return out, bool(c2.exit_states)
+
+    n = 0
+    for e0, e1 in classes:
+        wa, ok_a = widths(ea, 2, e0, e1, (1 << 56) - 2)
+        lab = "biased exponent %d" % e0 if e0 == e1 else "biased exponents %d..%d" % (e0, e1)
+        for rinst in rounds:
+            wr, ok_r = widths(rinst, 1, e0, e1, None)
+            ha, hr = wa["mask::lower_n_halfway"], wr["mask::lower_n_halfway"]
+            ma, mr = wa["mask::lower_n_mask"], wr["mask::lower_n_mask"]
+            if e0 == e1 == -64:
+                good = ok_a and ok_r and ha == [] and hr == [(64, 64)]
+                want = "no width in the estimate (carry test only), 64 in round"
+            else:
+                good = ok_a and ok_r and len(ha) == 1 and ha == hr and ha[0][0] == ha[0][1] and ma == mr == ha
+                want = "one and the same width in both"
+            ctx.oblige("post:window width agrees with round on class: %s" % lab, good, ea, ea.get("span"),
+                       "error_is_accurate::<%s> examines widths %s (mask %s); %s rounds at %s (mask %s); required: %s" % (fty, ha, ma, rinst["name"][:80], hr, mr, want))
+            n += 1
+    ctx.oblige("post:window classes enumerated", n >= len(classes), ea, ea.get("span"), "%d (class, round instance) pairs" % n)
+    ctx.exits, ctx.wall = 0, 0.0
+    return ctx
+
+
 def analyze_hi64_classes(facts):
     """C12, top-64-bit extraction from one and two limbs: the first limb r0 is partitioned by its number of leading zeros (64 classes covering
     every non-zero value), the second limb r1 into {0}, [1, 2^(64-ls) - 1] (its bits that fall off the result are non-zero) and the rest.
@@ -894,6 +957,11 @@ if __name__ == "__main__":
         f = F.build(sys.argv[2], sys.argv[3])
         for fty in ("f32", "f64"):
             report(analyze_round_classes(f, fty), only_failed="--all" not in sys.argv)
+        sys.exit(0)
+    if sys.argv[1] == "window":
+        f = F.build(sys.argv[2], sys.argv[3])
+        for fty in ("f32", "f64"):
+            report(analyze_window_classes(f, fty), only_failed="--all" not in sys.argv)
         sys.exit(0)
     if sys.argv[1] == "hi64":
         f = F.build(sys.argv[2], sys.argv[3])
